@@ -1031,6 +1031,24 @@ fn comp_eval(zone: &Zone, hz: &HkZone, q: &[Vec<u8>], qn: &Name, qtype: u16) -> 
             500,
         )
     });
+    // names compare without regard to letter case (RFC 4343): the verdict must not change when
+    // the SOA owner or the query name arrive in another spelling (a zone whose apex is configured
+    // as `Example.` serves exactly that)
+    if let (Some(d), Some(soa)) = (direct, parts.soa_name.as_ref()) {
+        let upper = |n: &Name| Name::from_ascii(n.to_ascii().to_ascii_uppercase()).unwrap_or_else(|_| n.clone());
+        let d_soa = verify_nsec3(&Query::new(qn.clone(), rtype(qtype)), Some(&upper(soa)), parts.rcode, &parts.answers, &sel, 100, 500);
+        let d_q = verify_nsec3(&Query::new(upper(qn), rtype(qtype)), Some(soa), parts.rcode, &parts.answers, &sel, 100, 500);
+        if d_soa != d || d_q != d {
+            return Err(Fail::new(
+                "nsec3-verdict-depends-on-letter-case",
+                format!(
+                    "zone [{}] query {qn} {}: verdict {d:?}; with the SOA owner in upper case {d_soa:?}; with the query name in upper case {d_q:?}",
+                    zone.render(),
+                    ty::mnemonic(qtype)
+                ),
+            ));
+        }
+    }
     Ok(Some(CompEval {
         truth,
         parts,
